@@ -78,6 +78,19 @@ let vec_of v : nat -> float =
   fun i -> let i = int_of_nat i in if i < Array.length a then a.(i) else 0.0
 let vmat m n (a : nat -> nat -> float) = vlist (vlist vf) (to_list (nat_of_int m) (nat_of_int n) a)
 
+let t4_of v : nat -> nat -> nat -> nat -> float =
+  let a = Array.of_list (List.map (fun b -> Array.of_list (List.map (fun c -> Array.of_list (List.map (fun h ->
+            Array.of_list (List.map getf (getl h))) (getl c))) (getl b))) (getl v)) in
+  fun b c h w -> let b = int_of_nat b and c = int_of_nat c and h = int_of_nat h and w = int_of_nat w in
+    if b < Array.length a && c < Array.length a.(b) && h < Array.length a.(b).(c) && w < Array.length a.(b).(c).(h)
+    then a.(b).(c).(h).(w) else 0.0
+let geom_of = function
+  | L [I b; I c; I h; I w; I o; I kh; I kw; I sh; I sw; I ph; I pw] ->
+      { gB = nat_of_int b; gC = nat_of_int c; gH = nat_of_int h; gW = nat_of_int w; gO = nat_of_int o;
+        gkh = nat_of_int kh; gkw = nat_of_int kw; gsh = nat_of_int sh; gsw = nat_of_int sw; gph = nat_of_int ph; gpw = nat_of_int pw }
+  | _ -> failwith "geom"
+let range n = List.init n (fun i -> i)
+
 (* ---------- commands ---------- *)
 let run (cmd : string) (a : v) : v =
   match cmd, a with
@@ -221,6 +234,25 @@ let run (cmd : string) (a : v) : v =
       (match kl with
        | S "none" -> L [vf s; S "none"]
        | k -> L [vf s; vf (nu fops (getf k) s)])
+  | "extract_patches", L [g; x] ->
+      let g = geom_of g in let x = t4_of x in
+      let pt = extract_patches fops g x in
+      let bb = int_of_nat g.gB and oh = int_of_nat (out_h g) and ow = int_of_nat (out_w g) and nf = int_of_nat (nfeat g) in
+      L (List.map (fun b -> L (List.map (fun p -> L (List.map (fun q -> L (List.map (fun f ->
+           vf (pt (nat_of_int b) (nat_of_int p) (nat_of_int q) (nat_of_int f))) (range nf))) (range ow))) (range oh))) (range bb))
+  | "conv_grad_matrix", L [g; I hb; go; x] ->
+      let g = geom_of g in
+      let gm = grad_matrix fops g (hb <> 0) (t4_of go) (t4_of x) in
+      vmat (int_of_nat g.gO) (int_of_nat (nfeat g) + (if hb <> 0 then 1 else 0)) gm
+  | "conv_fwd", L [g; w; bias; x] ->
+      let g = geom_of g in
+      let out = conv_fwd fops g (t4_of w) (vec_of bias) (t4_of x) in
+      let bb = int_of_nat g.gB and oh = int_of_nat (out_h g) and ow = int_of_nat (out_w g) and oo = int_of_nat g.gO in
+      L (List.map (fun b -> L (List.map (fun o -> L (List.map (fun p -> L (List.map (fun q ->
+           vf (out (nat_of_int b) (nat_of_int o) (nat_of_int p) (nat_of_int q))) (range ow))) (range oh))) (range oo))) (range bb))
+  | "lin_grad_matrix", L [I rows; I nin; I nout; I hb; go; a] ->
+      vmat nout (nin + (if hb <> 0 then 1 else 0))
+        (lin_grad_matrix fops (nat_of_int rows) (nat_of_int nin) (hb <> 0) (mat_of go) (mat_of a))
   | _ -> failwith ("unknown command or bad argument: " ^ cmd)
 
 let () =
